@@ -7,8 +7,8 @@ package main
 // the two still agree.  The child process shares nothing but the block bytes.
 //
 // The exchange is pipelined: the monitor queues every committed block together with ledger A's
-// fingerprint and goes on; the answers are compared by a receiver goroutine.  (A -race binary of
-// this code base needs minutes to initialise; the child does that while the monitor already works.)
+// fingerprint and goes on; the answers are compared by a receiver goroutine, so the monitor never
+// waits for the child to come up (see referenceBinary).
 
 import (
 	"bufio"
@@ -19,12 +19,14 @@ import (
 	"io"
 	"os"
 	"os/exec"
+	"path/filepath"
 	"sync/atomic"
 
 	"github.com/ontio/ontology/common"
 	"github.com/ontio/ontology/core/store"
 	"github.com/ontio/ontology/core/types"
 	"verifharness/lib/chain"
+	"verifharness/lib/racelog"
 )
 
 const (
@@ -149,7 +151,8 @@ type sent struct {
 }
 
 type isolatedRef struct {
-	cmd      *exec.Cmd
+	cmd      *exec.Cmd // set by the launcher goroutine before launched is closed
+	launched chan struct{}
 	sendq    chan []byte
 	pend     chan sent
 	done     chan struct{}
@@ -157,7 +160,28 @@ type isolatedRef struct {
 	broken   atomic.Value // string: the child failed
 }
 
-func startIsolatedRef(dir, tag string) (*isolatedRef, error) {
+// referenceBinary is the program the isolated reference runs: this binary, or — when this one is built
+// with the race detector, whose start-up alone takes minutes for this code base and buys nothing for a
+// single-goroutine reference — the same package built without -race (same tree, tags and module file:
+// ./check exports them), placed in the scratch directory.
+func referenceBinary(scratch string) (string, error) {
+	if !racelog.Enabled {
+		return os.Args[0], nil
+	}
+	home := os.Getenv("VERIF_HOME")
+	if home == "" {
+		home = "/verif"
+	}
+	out := filepath.Join(scratch, "reference-bin")
+	cmd := exec.Command("go", "build", "-tags", "verif", "-o", out, "./props/c42")
+	cmd.Dir = filepath.Join(home, "harness")
+	if b, err := cmd.CombinedOutput(); err != nil {
+		return "", fmt.Errorf("building the race-free reference binary: %v: %s", err, trunc(string(b), 600))
+	}
+	return out, nil
+}
+
+func startIsolatedRef(scratch, dir, tag string) (*isolatedRef, error) {
 	reqR, reqW, err := os.Pipe()
 	if err != nil {
 		return nil, err
@@ -166,16 +190,25 @@ func startIsolatedRef(dir, tag string) (*isolatedRef, error) {
 	if err != nil {
 		return nil, err
 	}
-	cmd := exec.Command(os.Args[0])
-	cmd.Env = append(os.Environ(), childDirEnv+"="+dir, childTagEnv+"="+tag)
-	cmd.ExtraFiles = []*os.File{reqR, repW}
-	cmd.Stdout, cmd.Stderr = os.Stderr, os.Stderr
-	if err := cmd.Start(); err != nil {
-		return nil, err
-	}
-	reqR.Close()
-	repW.Close()
-	x := &isolatedRef{cmd: cmd, sendq: make(chan []byte, 8192), pend: make(chan sent, 8192), done: make(chan struct{})}
+	x := &isolatedRef{sendq: make(chan []byte, 8192), pend: make(chan sent, 8192), done: make(chan struct{}), launched: make(chan struct{})}
+	go func() { // launcher: the monitor does not wait for the child to come up
+		defer close(x.launched)
+		defer reqR.Close()
+		defer repW.Close()
+		bin, err := referenceBinary(scratch)
+		if err == nil {
+			cmd := exec.Command(bin)
+			cmd.Env = append(os.Environ(), childDirEnv+"="+dir, childTagEnv+"="+tag)
+			cmd.ExtraFiles = []*os.File{reqR, repW}
+			cmd.Stdout, cmd.Stderr = os.Stderr, os.Stderr
+			if err = cmd.Start(); err == nil {
+				x.cmd = cmd
+			}
+		}
+		if err != nil {
+			x.broken.Store(err.Error())
+		}
+	}()
 	go func() { // sender
 		for m := range x.sendq {
 			if _, err := reqW.Write(m); err != nil {
@@ -197,7 +230,9 @@ func startIsolatedRef(dir, tag string) (*isolatedRef, error) {
 				err = json.Unmarshal(line, &rep)
 			}
 			if err != nil {
-				x.broken.Store(fmt.Sprintf("no answer for height %d: %v", s.height, err))
+				if x.broken.Load() == nil {
+					x.broken.Store(fmt.Sprintf("no answer for height %d: %v", s.height, err))
+				}
 				for range x.pend {
 				}
 				return
@@ -260,7 +295,11 @@ func (x *isolatedRef) finish() string {
 	close(x.pend)
 	<-x.done
 	close(x.sendq)
-	err := x.cmd.Wait()
+	<-x.launched
+	var err error
+	if x.cmd != nil {
+		err = x.cmd.Wait()
+	}
 	if b := x.broken.Load(); b != nil {
 		return b.(string)
 	}
